@@ -49,7 +49,7 @@ def run(ctx):
     wit = asmlib.run_witnesses(ctx, ['normal', 'F1', 'F8'])
     ctx.coverage["coq_witness_histories_on_impl"] = wit
     scs = (txscen.single_transmissions(rng, 200 if quick else 3000) + txscen.follow_on(rng, 200 if quick else 3000)
-           + txscen.repeats(rng, 80 if quick else 1000) + txscen.stale_history(rng, 40 if quick else 400)
+           + txscen.repeats(rng, 80 if quick else 1000) + txscen.repeats_with_lone_burst(rng, 20 if quick else 300) + txscen.stale_history(rng, 40 if quick else 400)
            + txscen.many_repeats(rng, 20 if quick else 100))
     mism, fam, nontriv, samples = base.run_family(ctx, "C05", txoracle.check_c05, scs, rng)
     ctx.coverage["audio_repeat_scenarios_ok"] = audio_repeats(ctx, rng.fork("audio"), 3 if quick else 24)
